@@ -403,7 +403,8 @@ class BaseProperty(base.BaseObject):
         2
         3
         """
-        return list(self._values)
+        # odml style tuple values are stored as lists; hand out copies of those as well.
+        return [list(val) if isinstance(val, list) else val for val in self._values]
 
     @values.setter
     def values(self, new_value):
